@@ -438,8 +438,11 @@ impl<'tcx> Cx<'tcx> {
     }
 
     fn body(&self, did: DefId) -> String {
-        let tcx = self.tcx;
-        let body = tcx.optimized_mir(did);
+        let body = self.tcx.optimized_mir(did);
+        self.body_json(did, body)
+    }
+
+    fn body_json(&self, did: DefId, body: &Body<'tcx>) -> String {
         let mut locals = vec![];
         for (_l, d) in body.local_decls.iter_enumerated() {
             locals.push(obj(vec![
@@ -598,6 +601,16 @@ impl rustc_driver::Callbacks for Cb {
                     }
                     fields.push(("body", cx.body(did)));
                     fns.push(obj(fields));
+                    // promoted constants of this body (e.g. `&Frame::DisconnectFrame(..)`)
+                    for (pi, pbody) in tcx.promoted_mir(did).iter_enumerated() {
+                        fns.push(obj(vec![
+                            ("path", esc(&format!("{}::promoted[{}]", cx.path(did), pi.index()))),
+                            ("kind", esc("Promoted")),
+                            ("sp", cx.span(tcx.def_span(did))),
+                            ("parent", esc(&cx.path(did))),
+                            ("body", cx.body_json(did, pbody)),
+                        ]));
+                    }
                 }
                 DefKind::Const { .. } | DefKind::Static { .. } | DefKind::AssocConst { .. } => {
                     let mut fields = vec![
